@@ -23,20 +23,21 @@ def route(case):
 VARIANTS = ["repaired", "def_sa"]
 MODEL_NEEDS_IMPL = False
 
-RULE = ("case = configuration of both nodes (node-id order, priority, preempt, decrement, #tracked interfaces) + "
-        "history of events over the pair: start, send heartbeat, deliver/drop any in-flight heartbeat (requests are "
-        "answered with a fresh snapshot), one-sided peer loss (direct and through checkPeerTimeout), interface "
-        "down/up/deleted notifications incl. repeated and untracked ones, local-only / remote-only / complete "
-        "switchovers (forced or not). Streams: (1) every event sequence up to depth D from four warm states over "
-        "priorities {100,200}, preempt {f,t}^2, both id orders, decrement {0,50}; (2) random walks of length 40..200 "
-        "with phases (partition, heal, flap); (3) boundary configurations (equal priorities, priority 0, decrement "
-        "larger than priority, priorities >= 2^31, three interfaces). Observed after every step, for both nodes: state, "
-        "effective priority, last seen peer priority/state, peer-known flag, interface down count, IsActive, and the "
-        "published state-change events. Non-trivial: at least one election happened and at least two distinct "
-        "(stateA,stateB) pairs beyond start-up were visited. Distinct: by case text.")
-TRUSTED = ["handlers are atomic in the model (one event = one complete Manager call); interleavings *inside* "
-           "handlePeerHeartbeat/handlePeerLost of concurrent goroutines are outside the model",
-           "one redundancy group per node pair; node ids are non-empty and distinct strings compared bytewise"]
+RULE = ("case = configuration of both nodes (node id as a Go string, priority, preempt, decrement, #tracked interfaces) + "
+        "history over the pair: start, send heartbeat, deliver/drop any in-flight heartbeat (requests are answered with a "
+        "fresh snapshot), one-sided peer loss (direct and through checkPeerTimeout), interface down/up/deleted notifications "
+        "incl. repeated and untracked ones, local-only / remote-only / complete switchovers (forced or not), and forced "
+        "overlaps: one Manager call parked at a lock boundary (heartbeat handler after PeerDiscovered; handlePeerLost "
+        "before / after sm.PeerLost) while whole calls run on the same node, under -race. Streams: (1) every event sequence "
+        "up to depth D from four warm states over priorities {100,200}, preempt {f,t}^2, both id orders, decrement {0,50}; "
+        "(2) random walks of length 40..200; (3) boundary configurations (priority 0, decrement > priority, priorities >= "
+        "2^31); (4) node ids '9'/'10', 'node-2'/'node-10', 'a'/'B', shared prefixes, non-ASCII, equal, empty; (5) overlap "
+        "schedules x 7 warm states x 4 configurations. Observed after every step, both nodes: state, effective priority, "
+        "last seen peer priority/state, peer-known flag, interface down count, IsActive, published state changes. "
+        "Non-trivial: at least one election and at least three distinct (stateA,stateB) pairs. Distinct: by case text.")
+TRUSTED = ["interleavings of critical sections are modelled (Fine.v) and proved about; only the schedules with one call "
+           "parked inside Publish can be forced on the real code, the others are tied through the per-section semantics",
+           "one redundancy group per node pair (a second one exists only as parking device in pL cases)"]
 ASSUMPTIONS = ["node ids are distinct and non-empty",
                "for the effective-priority theorem: priority < 2^31 and decrement * #interfaces < 2^31 (no int32 wrap)"]
 
@@ -234,6 +235,13 @@ def classify(case, impl, model):
         pick = lambda n: [n.split(",")[j] for j in (0, 1, 5, 6)] if n.count(",") == 6 else n
         return (pick(p[0]), pick(p[1]), p[2])
     if core(xi) == core(yi):
+        # only the recorded peer view differs here: look for a later difference in state / priority / events
+        x, y = impl.split(" "), model.split(" ")
+        for j in range(min(len(x), len(y))):
+            if core(x[j]) != core(y[j]):
+                opj = ops[j - 1] if 0 < j <= len(ops) else "<init>"
+                return "P", ("peer view differs from step %d (%s); after step %d (%s) the pair is %s but the repaired "
+                             "model (for which the C10 theorems hold) says %s" % (i, op, j, opj, x[j], y[j]))
         return "G", ("after step %d (%s) only the recorded peer view (peer priority/state, peer-known flag) differs: "
                      "%s vs model %s" % (i, op, xi, yi))
     return "P", ("after step %d (%s) the pair is %s but the repaired model (for which the C10 theorems hold) says %s"
